@@ -10,8 +10,9 @@ INF = float('inf')
 
 def build(case, **over):
     c = dict(case); c.update(over)
-    p = H.make_problem(c['n'], c['lo'], c['hi'], c['objective'], fail_at=c.get('fail_at'), exc=c.get('exc', 'RuntimeError'))
-    s = H.make_solver(p, r=c['r'], eps=c['eps'], iters=c['iters'], density=c.get('density'), refine=c.get('refine', False))
+    p = H.make_problem(c['n'], c['lo'], c['hi'], c['objective'], fail_at=c.get('fail_at'), exc=c.get('exc', 'RuntimeError'),
+                       fail_region=c.get('fail_region'), returns_new_holder=c.get('new_holder', False))
+    s = H.make_solver(p, r=c['r'], eps=c['eps'], iters=c['iters'], density=c.get('density'), refine=c.get('refine', False), start=c.get('start'))
     return p, s
 
 
@@ -33,6 +34,8 @@ def c03(case):
         fails.append('reported trials %d != objective evaluations of the global search %d' % (sol.numberOfGlobalTrials, nglobal))
     if nglobal > case['iters']:
         fails.append('evaluations %d exceed itersLimit %d' % (nglobal, case['iters']))
+    if p.calls - (sol.numberOfLocalTrials + 1 if case.get('refine') else 0) > case['iters']:
+        fails.append('the objective was called %d times by the global search, itersLimit is %d' % (p.calls, case['iters']))
     if 'Exception was thrown' in out:
         fails.append('internal exception during Solve: ' + out.strip()[:200])
     p.log = p.log[:max(nglobal, 0)]
@@ -122,6 +125,35 @@ def c02_long(case):
     finally:
         Method.CalculateIterationPoint = orig
     return fails, stats
+
+
+def c03_failing(case):
+    """an objective that fails (on a slab of the box, or at the very first call): Solve returns, and the objective is never called
+    more than itersLimit times"""
+    p, s = build(case)
+    cap = 3 * case['iters'] + 50
+    inner = p.Calculate
+
+    class Runaway(BaseException):
+        pass
+
+    def capped(point, fv):
+        if p.calls >= cap:
+            raise Runaway()
+        return inner(point, fv)
+    p.Calculate = capped
+    try:
+        sol, out = H.run_script(s, [('solve',)])
+    except Runaway:
+        return ['Solve keeps calling the failing objective: %d calls with itersLimit %d (stopped by the watchdog)' % (p.calls, case['iters'])]
+    fails = []
+    if p.calls >= cap:
+        fails.append('the objective was called %d times (watchdog limit) with itersLimit %d' % (p.calls, case['iters']))
+    elif p.calls > case['iters']:
+        fails.append('the objective was called %d times, itersLimit is %d' % (p.calls, case['iters']))
+    if sol.numberOfGlobalTrials != len(p.log):
+        fails.append('reported trials %d != successful objective evaluations %d' % (sol.numberOfGlobalTrials, len(p.log)))
+    return fails
 
 
 def guarded(fn, case):
@@ -231,6 +263,9 @@ def c02_steps(case, check04=True, check06=True):
         fails.append('first trial %r is not the image of 0.5' % (p.log[0][0],))
     seen_pts = set()
     for it in range(case['iters'] - 1):
+        if it == case.get('refine_at'):      # a local refinement in the middle of the search must not disturb the decision rule
+            with H.quiet():
+                s.DoLocalRefinement(case.get('refine_iters', 15))
         rec = H.record(s)
         if check06:
             fails += record_check(case, p, s, where='after %d iterations: ' % (it + 1))
@@ -317,6 +352,26 @@ def c05(case):
         f = H.objective(case['objective'])
         if f(pt) != val:
             fails.append('reported value %r != objective at returned point %r' % (val, f(pt)))
+    return fails
+
+
+def c06_failures(case):
+    """objective undefined on part of the box / failing at given calls; the caller catches and goes on: after EVERY call the
+    record lists exactly the evaluated trials"""
+    p, s = build(case)
+    fails = []
+    nfail = 0
+    for k in range(case['iters']):
+        try:
+            with H.quiet():
+                s.DoGlobalIteration(1)
+        except BaseException as e:  # noqa
+            if isinstance(e, KeyboardInterrupt) and case.get('exc') != 'KeyboardInterrupt':
+                raise
+            nfail += 1
+        fails += record_check(case, p, s, where='after call %d (%d failed evaluations so far): ' % (k + 1, nfail))
+        if fails or nfail > 12:
+            break
     return fails
 
 
